@@ -44,7 +44,7 @@ func reqClass(q reqIn, code uint64) string {
 
 // rarest features first; a case is labelled by its two rarest features
 var featureOrder = []string{
-	"k1", "snap-error", "snap-outofdate", "snap-resave", "save-error", "malformed", "mode2", "overwrite", "snap-compact",
+	"k1", "stress", "snap-error", "snap-outofdate", "snap-resave", "save-error", "malformed", "mode2", "overwrite", "snap-compact",
 	"mode1", "confchange", "group", "snap-install", "reopen", "entries-limited", "snap", "term", "entries", "mark", "cfg", "save",
 }
 
@@ -186,6 +186,9 @@ func (s *shadow) genSave(r *rand.Rand, sc int, feat map[string]bool, willCommit 
 		return q
 	}
 	x := r.IntN(1000)
+	if x >= 880 && x < 970 {
+		x = 0 // keep the malformed stream at 3% of the saves
+	}
 	switch {
 	case x < 380: // append at the tail
 		if vh.Chance(r, 0.12) {
@@ -410,6 +413,7 @@ func gen(r *rand.Rand, tier string, i int) input {
 	var sh [nScopes]shadow
 	n := 10 + r.IntN(26)
 	var ops []opIn
+	stressed := false
 	for len(ops) < n {
 		switch x := r.IntN(100); {
 		case x < 70:
@@ -452,6 +456,28 @@ func gen(r *rand.Rand, tier string, i int) input {
 			}
 			sort.Strings(fs)
 			ops = append(ops, opIn{Op: "write", Mode: mode, Reqs: reqs, F: fs})
+		case x < 72 && !stressed && vh.Chance(r, 0.5):
+			// concurrent free-running writers of the three scopes
+			stressed = true
+			feat := map[string]bool{}
+			var reqs []reqIn
+			for k := 6 + r.IntN(12); k > 0; k-- {
+				sc := r.IntN(nScopes)
+				saved := sh[sc]
+				saved.terms = append([]uint64(nil), sh[sc].terms...)
+				q := sh[sc].genReq(r, sc, feat, true)
+				if q.K == "save" && isRiskyInGroup(q) {
+					sh[sc] = saved
+					q = reqIn{S: sc, K: "mark", X: sh[sc].applied}
+				}
+				reqs = append(reqs, q)
+			}
+			var fs []string
+			for f := range feat {
+				fs = append(fs, f)
+			}
+			sort.Strings(fs)
+			ops = append(ops, opIn{Op: "stress", Reqs: reqs, F: fs})
 		case x < 74:
 			ops = append(ops, opIn{Op: "reopen"})
 		case x < 77:
